@@ -128,10 +128,18 @@ class Report(Partial):
         self.explanation = ""
         self.exhaustive = False
 
-    def pmap(self, func, items, procs=None, chunksize=1):
-        """Run func(partial, item, tier, seed) over items on all cores; merge."""
+    def pmap(self, func, items, procs=None, chunksize=1, may_fork=False):
+        """Run func(partial, item, tier, seed) over items on all cores; merge.
+        may_fork=True uses non-daemonic workers (the code under test forks itself)."""
         items = list(items)
         procs = procs or min(os.cpu_count() or 1, max(1, len(items)))
+        if may_fork and procs > 1 and len(items) > 1 and not os.environ.get("VERIF_SERIAL"):
+            import concurrent.futures as cf
+
+            with cf.ProcessPoolExecutor(max_workers=procs, mp_context=mp.get_context("fork")) as ex:
+                for p in ex.map(_worker, [(func, it, self.tier, self.seed) for it in items]):
+                    self.merge(p)
+            return
         if os.environ.get("VERIF_SERIAL") or procs == 1 or len(items) <= 1:
             for it in items:
                 self.merge(_worker((func, it, self.tier, self.seed)))
